@@ -56,11 +56,17 @@ def hashV2 (cfg : Cfg) (d : Nat) (lon lat : α) : Option Nat :=
   let j := if j == ns then ns - 1 else j
   Layer.buildHashFromParts cfg d d0h i j
 
+/-- `scale_by_half_nside`: multiplication by `nside / 2` through the exponent bits; at depth 0 (a division by 2) a plain
+    `0.5 * v`, since the repair of F27 (the exponent of `0.0` or of a subnormal number cannot be decremented: the bit
+    pattern became `-inf` / NaN) -/
+def scaleByHalfNside (d : Nat) (v : α) : α :=
+  if d = 0 then (Num.half : α) * v else Num.scale2 v (timeHalfNside d)
+
 /-- `shift_rotate_scale` -/
 def shiftRotateScale (d : Nat) (xy : α × α) : α × α :=
   let tmp := (Num.ofNat 8 : α) - xy.1
   let y := xy.2 + Num.one
-  (Num.scale2 (xy.1 + y) (timeHalfNside d), Num.scale2 (y + tmp) (timeHalfNside d))
+  (scaleByHalfNside d (xy.1 + y), scaleByHalfNside d (y + tmp))
 
 /-- `depth0_bits`; the recursion `k = 3, 4` strictly decreases `k`: structural on `fuel` (2 suffices) -/
 def depth0Bits (d : Nat) : (fuel : Nat) → (i j : Nat) → (ij : Nat × Nat) → (xy : α × α) → Option Nat
